@@ -64,6 +64,12 @@ template<> struct TagTab<bool> { static uint64_t at(int i) { static const uint64
 template<class T> inline T tag(int i) { return from_bits<T>(TagTab<T>::at(i)); }
 template<class T> inline const char* code() { return TI<T>::code(); }
 
+// an object placed at the least alignment its type guarantees: address = alignof(V) modulo 64
+template<class V> struct MinAligned {
+    alignas(64) unsigned char buf[64 + sizeof(V)];
+    explicit MinAligned(V const& v) { std::memcpy(buf + alignof(V), &v, sizeof(V)); }
+    V const& ref() const { return *reinterpret_cast<V const*>(buf + alignof(V)); }
+};
 // tagged values, written component by component (never through the constructors under test)
 template<int L, class T, glm::qualifier Q> inline glm::vec<L, T, Q> tagvec(int off) {
     glm::vec<L, T, Q> v;
